@@ -38,6 +38,7 @@ type Gen struct {
 	funcs     map[string]*ssa.Function
 	sweep     []sweepItem // contract-less functions to analyse for crash-freedom only
 	rxGlobals map[string]string
+	dryRun    map[*ssa.Function]bool
 	typesPkg  map[string]*types.Package
 	callees   map[*ssa.Function][]*ssa.Function
 	repoDir   string
@@ -691,4 +692,25 @@ func (g *Gen) globalRegexps() map[string]string {
 		}
 	}
 	return g.rxGlobals
+}
+
+// dryRunOK: can the engine execute this contract-less function at all (under an empty contract)?
+func (g *Gen) dryRunOK(f *ssa.Function) (ok bool) {
+	if g.dryRun == nil {
+		g.dryRun = map[*ssa.Function]bool{}
+	}
+	if v, seen := g.dryRun[f]; seen {
+		return v
+	}
+	g.dryRun[f] = true // provisional (recursion through helpers)
+	defer func() {
+		if r := recover(); r != nil {
+			ok = false
+		}
+		g.dryRun[f] = ok
+	}()
+	ct := &Contract{Key: g.relKey(f), Pkg: g.fnPkgPath(f), Loops: map[int]*LoopSpec{}}
+	fx := newFnExec(g, f, ct)
+	fx.sweep = true
+	return fx.run() == nil
 }
